@@ -1,0 +1,13 @@
+//go:build verif
+
+package verifx
+
+import (
+	gwbased "github.com/renbou/grpcbridge/internal/httprule/gwbased"
+)
+
+// GWSeg is the structural form of one parsed gwbased template segment.
+type GWSeg = gwbased.VerifSeg
+
+// GWSegments returns the parsed segments and verb of a template returned by GWParse.
+func GWSegments(c gwbased.Compiler) ([]GWSeg, string, bool) { return gwbased.VerifSegments(c) }
